@@ -131,6 +131,13 @@ func run(c *rig.Ctx) {
 		s := emu.Scenario{ROM: p.ROM, Video: i%2 == 1, Audio: false, Frames: frames, Keys: keySchedule(r, frames)}
 		check(c, p.Describe(), s, fmt.Sprintf("programs:%d", i))
 	})
+	// (2b) overlapping objects on screen (object priority must not depend on anything but OAM)
+	c.Part("sprites", c.N(8, 80), func(i int64, r *rig.Rng) {
+		p := prog.Sprites(r)
+		frames := 3 + r.Intn(3)
+		s := emu.Scenario{ROM: p.ROM, Video: i%2 == 0, Audio: false, Frames: frames, Keys: keySchedule(r, frames)}
+		check(c, "overlapping-objects program", s, fmt.Sprintf("sprites:%d", i))
+	})
 	// (3) audio attached (race-detector build): sound programs and ROMs
 	c.Part("audio", c.N(10, 80), func(i int64, r *rig.Rng) {
 		p := prog.Sound(r)
